@@ -2,7 +2,7 @@
 from enum import Enum
 
 from symx import E, Case
-from harness.common import call
+from harness.common import call, command_classes
 
 import dali.frame as F
 import dali.command as C
@@ -24,7 +24,7 @@ META = {
     "explanation": "symbolic execution of Response.__init__/value/status/__getattr__/__str__ of every "
                    "reachable response class with a symbolic answer byte; bitmap loops fork per bit",
     "bounds_note": "constructor arguments: 19 non-frame objects incl. every falsy one (0, False, '', b'', [], {}, (), 0.0)",
-    "bounds": ["all response classes reachable from Command._commands plus the base classes",
+    "bounds": ["all response classes reachable from the library's command classes plus the base classes",
                "answer byte 0..255 symbolic", "outcomes: none / clean / framing error",
                "non-frame constructor arguments: a concrete list of 9 objects",
                "bitmap histories: another bitmap class decodes the same byte and this class the complemented "
@@ -47,7 +47,7 @@ def response_classes():
             out.append(c)
     for c in (C.Response, C.NumericResponse, C.NumericResponseMask, C.YesNoResponse):
         add(c)
-    for cmd in C.Command._commands:
+    for cmd in command_classes():
         add(getattr(cmd, "response", None))
     out.sort(key=lambda c: (c.__module__, c.__qualname__))
     return out
